@@ -130,7 +130,7 @@ def mul_part(cv, rng, pts, corners, per_op, nsim, nlong, lots, dense=None, skip=
         if bad and nlong:
             out += [(rng.choice(bad), rng.choice(ok)), (rng.choice(ok), rng.choice(bad))][:nlong]
         if op == "ed_mul_sim_trick" and nlong:
-            out.append((rng.choice([1, -1]), rng.choice(ok)))
+            out += [(rng.choice([1, -1]), rng.choice(ok)), (rng.choice(ok), rng.choice([1, -1]))]
         return out
     m += gen_ed.sim_cases(cv, rng, kp_for, pts)
     m += gen_ed.lot_cases(cv, rng, short + [k for k in corners if abs(k).bit_length() <= 2 * cv.fpb + 8], pts, lots[0],
@@ -219,7 +219,7 @@ def run(tier, seed):
 
     # ---- B2: edwards25519, every coordinate system as the build default
     # probes beyond a routine's scalar capacity per routine and build (each one is a known-finding candidate)
-    NL = {"projc": 1, "extnd": 0, "basic": 0} if quick else {"projc": 3, "extnd": 2, "basic": 1}
+    NL = {"projc": 1, "extnd": 0, "basic": 0} if quick else {"projc": 2, "extnd": 1, "basic": 0}
     for kind, scale in (("projc", 1.0), ("extnd", 0.7), ("basic", 0.4)):
         cfg, bdir = build(kind)
         cvs = discover(cfg, bdir, wd)
@@ -245,8 +245,16 @@ def run(tier, seed):
             raise core.InfraError("tiny world construction failed")
         cover["w8p8-" + kind] = [w.name for w in worlds]
         G, M = [], []
-        for w in (worlds if not quick or kind == "projc" else worlds[:1]):
-            g, m = tiny(w, rng, quick, nlong=0 if quick else (1 if kind == "projc" else 0))
+        for wi, w in enumerate(worlds):
+            if quick:
+                if kind != "projc" and wi > 0:
+                    continue
+                g, m = tiny(w, rng, True)
+            else:
+                # exhaustive (every ordered pair of curve points, every scalar of the dense range) in the default build
+                # and for one world of the extended build; sampled elsewhere
+                full = kind == "projc" or (kind == "extnd" and wi == 0)
+                g, m = tiny(w, rng, not full, nlong=1 if (kind == "projc" and wi == 0) else 0)
             G += g
             M += m
         if quick:
